@@ -287,12 +287,24 @@ int main(int argc, char** argv) {
           for (const Node& val : {v, vi}) { Node r2 = root; Node& blk = r2.kids[2].kids[0]; blk.kids.insert(blk.kids.begin(), {mk_uint(100), val}); std::string whole = encode(r2), ev = encode(val); size_t pos = whole.find(ev);
               if (pos != std::string::npos) { poison.push_back(whole.substr(0, pos + ev.size() - 4)); poison.push_back(whole.substr(0, pos + 3)); } }
           { Node r2 = root; Node& blk = r2.kids[2].kids[0]; Node bad = mk_array({mk_uint(1), mk_uint(2)}); blk.kids.insert(blk.kids.begin(), {mk_uint(100), bad}); std::string whole = encode(r2); size_t pos = whole.find(encode(bad)); if (pos != std::string::npos) { whole[pos + 2] = (char)0x1c; poison.push_back(whole); } }  // reserved additional info inside a skipped value
-          for (auto& pz : poison) { lib::LibFile lf = lib::read_bytes(pz); if (lf.end == "eof") { fprintf(stderr, "poison input unexpectedly readable\n"); return done(2); } } }
+          // sanity (in a child process, so that this process never performs a failing read before forking its workers)
+          { fflush(stdout); fflush(stderr); pid_t cp = fork(); if (cp == 0) { for (auto& pz : poison) { lib::LibFile lf = lib::read_bytes(pz); if (lf.end == "eof") _exit(9); } _exit(0); } int st = 0; waitpid(cp, &st, 0); if (!WIFEXITED(st) || WEXITSTATUS(st) != 0) { fprintf(stderr, "poison input unexpectedly readable\n"); return done(2); } } }
         Pool pool(a.jobs, 120);
-        pool.run(cases.size(), [&](uint64_t i, Result& R) {
+        // phase 1 (indices < N): plain reads; phase 2 (indices >= N): each read right after a failed read. Workers run indices in increasing
+        // order, so no phase-1 read ever follows a failed read in its thread and every violation replays from its own case alone.
+        size_t NC = cases.size();
+        pool.run(2 * NC, [&](uint64_t idx, Result& R) {
             if (a.expired()) { R.deadline_hit = true; return; }
+            bool phase2 = idx >= NC; uint64_t i = phase2 ? idx - NC : idx;
             const Case& c = cases[i];
             std::string rep = "seed=" + seeds[c.seed].first + ";rw=" + c.desc + ";orig=" + hex(seeds[c.seed].second) + ";variant=" + hex(c.bytes);
+            if (phase2) {
+                std::string kind2 = c.desc.substr(0, c.desc.find('@')); if (kind2.rfind("unknown-key", 0) == 0) kind2 = "unknown-member";
+                std::string ld0 = orig_dump[c.seed];
+                for (size_t pz = 0; pz < poison.size(); pz++) { set_note((rep + ";poison=" + hex(poison[pz])).substr(0, 7000)); lib::read_bytes(poison[pz]); std::string again = lib::file_dump(lib::read_bytes(c.bytes)); R.count("traces"); R.count("nontrivial");
+                    if (again != ld0) { R.violation("rewrite|stateful-after-failed-read|" + kind2, "seed " + seeds[c.seed].first + " " + c.desc + ": the file decodes differently right after a failed read of another input in the same thread (poison #" + std::to_string(pz) + ")", rep + ";poison=" + hex(poison[pz])); break; } }
+                return;
+            }
             set_note(rep.substr(0, 7000));
             // guard the generator: the independent reader must see the same data
             std::string rd; try { rd = lib::file_dump(read_file(c.bytes)); } catch (std::exception& e) { rd = std::string("ref-rejects:") + e.what(); }
@@ -306,12 +318,9 @@ int main(int argc, char** argv) {
                 std::string tail = ld.size() > 80 ? ld.substr(ld.size() - 80) : ld;
                 R.violation("rewrite|" + kind, "seed " + seeds[c.seed].first + " " + c.desc + ": reader output differs from the original at " + std::to_string(p) + " (…" + tail + ")", rep);
             }
-            // the same read again, each time right after a read that failed inside skip_item
-            for (size_t pz = 0; pz < poison.size(); pz++) { lib::read_bytes(poison[pz]); std::string again = lib::file_dump(lib::read_bytes(c.bytes)); R.count("traces"); R.count("nontrivial");
-                if (again != ld) { R.violation("rewrite|stateful-after-failed-read|" + kind, "seed " + seeds[c.seed].first + " " + c.desc + ": the same file decodes differently right after a failed read of another input (poison #" + std::to_string(pz) + ")", rep + ";poison=" + hex(poison[pz])); break; } }
             R.outcome(kind + (ld != orig_dump[c.seed] ? ":viol" : ":ok"));
             if (i % 5003 == 11) R.sample("seed=" + seeds[c.seed].first + ";rw=" + c.desc);
-        }, [&](uint64_t i, const std::string& d, Result& R) { R.violation("rewrite|" + crash_key(d), "crash on " + cases[i].desc + ": " + d.substr(0, 1500), pool.last_note); }, total);
+        }, [&](uint64_t i, const std::string& d, Result& R) { R.violation("rewrite|" + crash_key(d), "crash on " + cases[i % NC].desc + ": " + d.substr(0, 1500), pool.last_note); }, total);
         total.n["evaluations"] = total.n["traces"];
         if (total.n["generator_rejects"]) { fprintf(stderr, "generator produced %lu non-equivalent files\n", (unsigned long)total.n["generator_rejects"]); for (auto& n : total.notes) fprintf(stderr, "  %s\n", n.c_str()); a.finish(total); rm_rf(g_dir); return 2; }
         return done(0);
